@@ -32,7 +32,7 @@ EXPLANATION = (
     '(S4) all input arrays are read-only in the harness, any write is an exception path.')
 BOUNDS = {
     'quick': 'STFT (L,S) in {(4,2),(5,2),(5,3),(6,3),(4,4),(5,5)} x 3 styles, histories N<=L+S+1 with 2 cuts, utterances N<=2L+S with 2 cuts; '
-             'SI S=2, M in {3,4}, D in {6,8}, utterances N<=8 with 2 cuts; alternating dtypes: float32 utterance (N<=L+S+1) then float64 utterance in 2 chunks (and the reverse), (L,S) in {(4,2),(5,3)} x 3 styles',
+             'SI S=2, M in {3,4}, D in {6,8}, utterances N<=8 with 2 cuts; alternating dtypes: float32 utterance (N<=L+S+1) then float64 utterance in 2 chunks (and the reverse), (L,S) in {(4,2),(5,3)} x 3 styles, and on short-integration computers (D <= 6, N <= 3)',
     'thorough': 'STFT L<=8 grid, utterances N<=3L with 3 cuts; SI additionally S=3, D=9',
 }
 OUTSIDE = ['floating point: bit-identity is claimed as identity of the symbolic result terms (same operations on the same operands)',
@@ -40,6 +40,7 @@ OUTSIDE = ['floating point: bit-identity is claimed as identity of the symbolic 
            'remembered chunk dtype: shown dead for float64 follow-up utterances only (dtype lattice f8/f4)']
 ASSUMPTIONS = [
     'per-frame routines (_compute_frame) write no instance state (STFT: recorder replaces it; real routine checked by an AST scan for assignments to self.*)',
+    'state the constructor initialises with a literal (self._x = None / {} / 0) is read off the constructor AST and copied into hand-built instances',
     'a store into a narrower float array rounds: modelled as an uninterpreted CAST_<dtype> of the stored value; state allocated by the constructor (the history buffer) is taken from the real __init__ run on a stub bank / window',
     'dead fields allowed to differ after finalize: STFT _chunk_dtype, _buf contents; SI _ret_dtype, _x_rem, _y_rem, _skip, buffers -- each is made arbitrary in S2',
 ]
